@@ -80,8 +80,11 @@ def kwcase(k):
     return "".join(c.upper() if rnd.random() < 0.5 else c for c in k)
 
 
-IDENT_START = "abcdefghijklmnopqrstuvwxyzABCDEFGHIJKLMNOPQRSTUVWXYZ_" + "éßλжא中あ𝒜"
-IDENT_CONT = IDENT_START + "0123456789" + "\u0301\u203f"
+# XID_Start / XID_Continue (checked against github.com/smasher164/xid): besides letters also letter numbers (Nl) and
+# Other_ID_Start (U+2118, U+212E, U+1885); continue characters also Other_ID_Continue (U+00B7, U+0387, U+1369, U+19DA),
+# non-ASCII digits and connector punctuation
+IDENT_START = "abcdefghijklmnopqrstuvwxyzABCDEFGHIJKLMNOPQRSTUVWXYZ_" + "éßλжא中あ𝒜" + "\u2118\u212e\u2167\u3007\u1885\u16ee\u3021"
+IDENT_CONT = IDENT_START + "0123456789" + "\u0301\u203f" + "\u00b7\u0387\u1369\u19da\u0660\uff3f"
 
 
 def esc_char(ch, in_ident=False):
